@@ -20,6 +20,27 @@ CHECKS = {
     ),
 }
 
+CHECKS["C02"] = dict(
+    category="model_checking",
+    technique="clang -O2 LLVM IR of the runtime views -> z3 bit-vector/array terms (ll2smt), one query per obligation over all container contents and buffer lengths",
+    text="Bounded-exhaustive by solver: for each configuration (type, width, container size, bit offset, byte order, buffer "
+         "alignment) the compiled Ok()/Read() of the real view templates are compared with the documented decode for every "
+         "content of the container and every buffer length 0..24; thorough enumerates the whole configuration space.",
+    note="Verifies clang 14's x86-64 IR of runtime/cpp (not gcc's code); buffer base aligned as the template promises; "
+         "reference decode in vf/kernels.py (DESIGN.md A.1); counterexamples are replayed natively under ASan+UBSan.",
+    design="DESIGN.md section 3 C02",
+)
+CHECKS["C03"] = dict(
+    category="model_checking",
+    technique="clang -O2 LLVM IR of the runtime views -> z3 bit-vector/array terms (ll2smt); post-memory compared byte-for-byte by the solver",
+    text="Bounded-exhaustive by solver: CouldWriteValue/TryToWrite of every configuration against the documented range, "
+         "read-back, neighbour-bit and other-byte preservation and failed-write atomicity, for every initial buffer, "
+         "length and every value of the full-width argument type.",
+    note="Bcd writes only up to 16 (quick) / 32 (thorough) bits wide (division chains beyond do not bit-blast in time); "
+         "same trusted base as C02.",
+    design="DESIGN.md section 3 C03",
+)
+
 NOT_APPLICABLE = {
 }
 
